@@ -1,7 +1,7 @@
 """pyvc.paths — one symbolic path; exploration by re-execution with a decision prefix."""
 import time
 import z3
-from .values import Infeasible, Unsupported, CUR, SBool, SNum, to_bool_term
+from .values import Infeasible, LoopCut, Unsupported, CUR, SBool, SNum, to_bool_term
 
 BRANCH_TIMEOUT_MS = 20000
 
@@ -175,6 +175,8 @@ def explore(run_one, max_paths=20000, time_budget_s=None):
         CUR.path = p
         try:
             out = run_one(p)
+        except LoopCut:
+            out = Outcome('loopcut')
         except Infeasible:
             out = Outcome('cut')
         finally:
